@@ -75,9 +75,17 @@ META = {
                 "non-empty text, predict does not panic, boundary_scores = the pointwise linear model (pattern-indexed sum over all "
                 "occurrences), labels = sign of the score with no unknown left, nothing else changes. Tied to /repo by an exhaustive "
                 "small scope and random well-formed models (all window classes) with a brute-force oracle in the harness. "
-                "Window size 0 (outside this property's quantifier, inside C09/C11's) is covered by C01_scores_window0 for WFModel0: a zero window switches the n-grams of that kind off, whatever the list contains; dictionary words and tag n-grams still count.",
+                "Window size 0 (outside this property's quantifier, inside C09/C11's) is covered by C01_scores_window0 for WFModel0: a zero window switches the n-grams of that kind off, whatever the list contains; dictionary words and tag n-grams still count. "
+                "The other C01 theorems hold for window size 0 as well (C01_predict_overwrites*_window0, C01_score_local_window0). "
+                "i32: scores are unbounded Int in the model; C01_no_overflow turns the former no-overflow ASSUMPTION into a theorem under an explicit bound: "
+                "with mass(m) = |bias| + sum of |w| over all weights of the n-grams and words that count, every specification score (C01_spec_bounded, any model), "
+                "every value produced by either phase of the weight mergers and every stored merged weight or cache entry (C01_merged_bounded: the generic merger run with an "
+                "overflow-checked += returns the same result) and every slot of the padded score buffer after ANY prefix of the character or type pass (C01_running_bounded) "
+                "is at most mass(m) in absolute value; mass < 2^31 therefore keeps every + of Predictor::new and Predictor::predict inside i32. Sharp: decide-checked models "
+                "with mass 2^31-1 (attained) and 2^31 (overflows). Tied to /repo by a generator family of models with mass exactly 2^31-1 (and a little less) on texts where one "
+                "boundary collects every weight, run in the overflow-checked harness build.",
         "design_ref": "DESIGN.md §6 C01",
-        "note": _common_note + "Assumed, not proved: no i32 overflow in score sums (scores are unbounded Int in the model); the daachorse "
+        "note": _common_note + "No i32 overflow is proved for models with mass < 2^31 (C01_no_overflow) and remains an assumption beyond that bound (tag scores: C06); the daachorse "
                 "automaton contract (longest pattern per end position; all patterns for the cache builder); byte-wise and "
                 "character-wise automata coincide at character level; get_type codes in 1..6 are re-derived from the regenerated table.",
         "technique": "Lean 4 proof (merge invariant, longest-match/all-occurrences exchange of sums, buffer arithmetic) + translator table + differential correspondence",
@@ -181,7 +189,12 @@ META = {
                 "0 for single candidates (C06_candidates); a model without categories leaves the sentence as is (C06_no_categories). "
                 "Tied to /repo by random tag models (ties, 0/1/2/3/9 candidates, empty boundary models) with edited boundaries and a "
                 "brute-force per-token classifier oracle in the harness. "
-                "C06_predictTags_window0 / C06_tags_window0 / C06_candidates_window0 state the same for models with a window size of 0 (WFModel0); the specification does not depend on the boundary n-grams (C06_spec_dropW0).",
+                "C06_predictTags_window0 / C06_tags_window0 / C06_candidates_window0 state the same for models with a window size of 0 (WFModel0); the specification does not depend on the boundary n-grams (C06_spec_dropW0). "
+                "i32: with TagModel.mass = sum of |bias| and of |w| over all tag n-gram weight vectors of ONE tag model (WModel.tagMass = the maximum over the tag models: vectors of different "
+                "tokens are never added together), every specified class score (C06_spec_bounded, any model; per class C06_spec_bounded_class), every value a checked += on PositionalWeightWithTag produces in "
+                "either merger phase and every entry of the tag_weight tables and bias vectors (C06_merged_bounded), and the score vector of a token after the bias and after EVERY prefix of either "
+                "add_tag_scores loop (C06_running_bounded) is at most that mass in absolute value; tagMass < 2^31 keeps tag scoring inside i32 (C06_no_overflow; with C01: C06_no_overflow_all). Sharp by decide-checked models. "
+                "Generators add candidate counts around multiples of 8 with weight vectors that are zero from some position on.",
         "design_ref": "DESIGN.md §6 C06",
         "note": _common_note + "daachorse contract as in C01 (longest pattern per end position is what the recorded state holds).",
         "technique": "Lean 4 proof (merge invariant instantiated at (token, rel, class) evaluations; loop = specSeg; row non-interference) + differential correspondence",
@@ -282,7 +295,7 @@ META = {
                 "byte offset at which a pattern's bytes end inside the text's bytes is a character boundary and the pattern occurs "
                 "there as characters (C18_match_end_boundary, C18_char_match_is_byte_match — UTF-8 self-synchronisation), and the "
                 "buffer write_tokenized_text assembles from raw bytes equals the UTF-8 of the escaped characters, hence is valid "
-                "(C18_escape_bytes, C18_escape_valid_utf8). Tied to /repo by running the union of the C08/C06/C14/C15 cases in a build "
+                "(C18_escape_bytes, C18_escape_valid_utf8). C18_history_safe_window0 is the same for models with a window size of 0 (EnvWF0; the old theorem is its corollary). Tied to /repo by running the union of the C08/C06/C14/C15 cases in a build "
                 "with debug assertions and overflow checks (every debug_assert! guarding an unchecked access fires as a panic).",
         "design_ref": "DESIGN.md §6 C18",
         "note": _common_note + "PARTIAL: memory safety inside daachorse/hashbrown and of deserialize_unchecked (beyond the value-level round trip of C14) is "
